@@ -231,6 +231,224 @@ def case(args) -> dict:
     return out
 
 
+# ---------------------------------------------------------------------------
+# finer granularity: every file-system effect of a worker is a step
+# ---------------------------------------------------------------------------
+_GATE = {"on": False, "root": "", "w": -1, "req_w": -1, "go_r": -1}
+_GHOOKED = False
+GATED_EVENTS = {"open", "os.rename", "os.mkdir", "os.remove", "os.rmdir",
+                "os.truncate", "os.link", "os.symlink", "os.listdir",
+                "os.scandir"}
+
+
+def _gate_audit(event, args):
+    if not _GATE["on"] or event not in GATED_EVENTS:
+        return
+    p = args[0] if args else None
+    if isinstance(p, bytes):
+        p = p.decode(errors="ignore")
+    if not isinstance(p, (str, os.PathLike)):
+        return
+    p = os.fspath(p)
+    if not p.startswith(_GATE["root"]):
+        return
+    rel = p[len(_GATE["root"]):].lstrip("/")
+    kind = event
+    if event == "open":
+        mode = args[1] if len(args) > 1 else ""
+        flags = args[2] if len(args) > 2 else 0
+        wr = (isinstance(mode, str) and any(c in mode for c in "wax+")) or (
+            isinstance(flags, int) and flags & (os.O_WRONLY | os.O_RDWR))
+        kind = "open-w" if wr else "open-r"
+    _GATE["on"] = False  # no re-entrance while talking to the controller
+    try:
+        os.write(_GATE["req_w"],
+                 f"{_GATE['w']}|{kind}|{rel[-60:]}\n".encode())
+        if not os.read(_GATE["go_r"], 1):
+            raise RuntimeError("controller went away")
+    finally:
+        _GATE["on"] = True
+
+
+def effect_feed(dataset_filler, w, items, req_w, go_r, root):
+    """feed_writer whose every file-system effect waits for the controller."""
+    global _GHOOKED
+    if not _GHOOKED:
+        sys.addaudithook(_gate_audit)
+        _GHOOKED = True
+    _GATE.update(root=root, w=w, req_w=req_w, go_r=go_r)
+    _GATE["on"] = True
+    try:
+        with dataset_filler as f:
+            for split, idt in items:
+                f.write_example(values=D.example(tuple(idt)), split=split)
+    finally:
+        _GATE["on"] = False
+        os.write(req_w, f"{w}|done|\n".encode())
+    return (w, [tuple(i) for _, i in items], [])
+
+
+def play_effects(fmt: str, spec, chooser, root: Path):
+    """One execution of the real multi-process call under a schedule of
+    file-system effects decided by ``chooser``."""
+    ds_ = D.create(root, fmt=fmt, eps=2)
+    writers = writers_of(spec)
+    k = len(writers)
+    req = os.pipe()
+    go = [os.pipe() for _ in range(k)]
+    for r, w_ in [req] + go:
+        os.set_inheritable(r, True)
+        os.set_inheritable(w_, True)
+    state = {"err": None, "steps": 0, "trace": []}
+
+    def controller():
+        pending: dict[int, str] = {}
+        done: set[int] = set()
+        running = set(range(k))  # workers that have not reported yet
+        buf = b""
+        last = None
+        try:
+            while len(done) < k:
+                while running:
+                    rd, _, _ = select.select([req[0]], [], [], 30)
+                    if not rd:
+                        state["err"] = (f"workers {sorted(running)} did not "
+                                        f"report within 30 s")
+                        return
+                    buf += os.read(req[0], 4096)
+                    while b"\n" in buf:
+                        line, buf = buf.split(b"\n", 1)
+                        w, kind, rel = line.decode().split("|", 2)
+                        w = int(w)
+                        running.discard(w)
+                        if kind == "done":
+                            done.add(w)
+                            pending.pop(w, None)
+                        else:
+                            pending[w] = f"{kind} {rel}"
+                if not pending:
+                    continue
+                enabled = sorted(pending)
+                if last in pending:
+                    enabled.remove(last)
+                    enabled.insert(0, last)
+                costs = [0] + [1 if enabled[0] == last else 0] * (
+                    len(enabled) - 1)
+                i = chooser.choose(len(enabled), costs=costs)
+                w = enabled[i]
+                state["steps"] += 1
+                if len(state["trace"]) < 80:
+                    state["trace"].append((w, pending[w]))
+                del pending[w]
+                running.add(w)
+                last = w
+                os.write(go[w][1], b"g")
+        except Exception as e:  # pylint: disable=broad-except
+            state["err"] = f"controller: {type(e).__name__}: {e}"
+        finally:
+            if state["err"]:
+                for w in range(k):
+                    try:
+                        os.write(go[w][1], b"g" * 4096)
+                    except OSError:
+                        pass
+
+    t = threading.Thread(target=controller, daemon=True)
+    args = [(w, writers[w], req[1], go[w][0], str(root)) for w in range(k)]
+    exc = None
+    res = None
+    t.start()
+    try:
+        res = ds_.write_multiprocessing(feed_writer=effect_feed,
+                                        custom_arguments=args)
+    except Exception as e:  # pylint: disable=broad-except
+        exc = f"{type(e).__name__}: {str(e)[:200]}"
+    t.join(60)
+    for r, w_ in [req] + go:
+        for fd in (r, w_):
+            try:
+                os.close(fd)
+            except OSError:
+                pass
+    return ds_, res, exc or state["err"], state
+
+
+def effect_case(args) -> dict:
+    """DFS (preemption bounded) over the interleavings of the workers'
+    file-system effects."""
+    fmt, spec, bound = args
+    from vf.explorer import Explorer, FixedChooser, Pruned
+    out = {"spec": spec, "fmt": fmt, "bad": [], "executions": 0,
+           "transitions": 0, "harness": None, "outcomes": 0, "max_steps": 0,
+           "sample": None}
+    box = core.fresh_dir("c09e")
+    try:
+        import multiprocessing
+        multiprocessing.set_start_method("fork", force=True)
+        from sedpack.io import Dataset
+        seq_root = box / "seq"
+        sds, sres, _ = play(fmt, spec, None, seq_root)
+        ref: dict = {}
+        for items in writers_of(spec):
+            for sp, idt in items:
+                ref.setdefault(sp, []).append(idt)
+        sbad, skey = opseq.inspect(seq_root, sds, ref, 2, fmt)
+        sseq = {sp: D.ids(Dataset(seq_root), sp, "sync") for sp in ref}
+        keys = set()
+
+        def run(ch):
+            root = box / "par"
+            shutil.rmtree(root, ignore_errors=True)
+            pds, pres, err, st = play_effects(fmt, spec, ch, root)
+            bad = []
+            if err:
+                bad.append(("fails", str(err)))
+            else:
+                want_ret = [(w, [i for _, i in items])
+                            for w, items in enumerate(writers_of(spec))]
+                got_ret = [(r[0], [tuple(i) for i in r[1]]) for r in pres]
+                if got_ret != want_ret:
+                    bad.append(("return-values", f"return values {got_ret}"))
+                pbad, pkey = opseq.inspect(root, pds, ref, 2, fmt)
+                keys.add(pkey)
+                bad += [(sym, msg) for _, sym, msg in pbad]
+                if pkey != skey and not pbad:
+                    bad.append(("differs-from-sequential",
+                                "metadata tree differs from the "
+                                "one-after-another run"))
+                pseq = {sp: D.ids(Dataset(root), sp, "sync") for sp in ref}
+                if pseq != sseq:
+                    bad.append(("order", f"iteration gives {pseq}, the "
+                                         f"one-after-another run {sseq}"))
+            return bad, st
+
+        def on_result(choices, r):
+            bad, st = r
+            out["max_steps"] = max(out["max_steps"], st["steps"])
+            if out["sample"] is None:
+                out["sample"] = st["trace"][:12]
+            for sym, msg in bad[:3]:
+                out["bad"].append(
+                    (sym, f"{fmt} writers {spec}, schedule of file-system "
+                          f"effects {choices}: {msg}",
+                     {"fmt": fmt, "spec": spec, "choices": choices,
+                      "effects": True}))
+
+        ex = Explorer(run, bound=bound, cache=False, max_executions=3000)
+        ex.explore(on_result)
+        out["executions"] = ex.executions
+        out["transitions"] = ex.transitions
+        out["outcomes"] = len(keys)
+        if ex.capped:
+            out["harness"] = "effect-level exploration capped"
+    except Exception as e:  # pylint: disable=broad-except
+        out["harness"] = f"{type(e).__name__}: {e} " + traceback.format_exc(
+        )[-500:]
+    finally:
+        shutil.rmtree(box, ignore_errors=True)
+    return out
+
+
 SPECS = [
     [[("train", 3)], [("train", 1)]],
     [[("train", 2)], [("train", 2)]],
@@ -276,6 +494,33 @@ def run(ctx):
             for sym, msg, c in r["bad"]:
                 ctx.violation({"engine": "procgates", "symptom": sym,
                                "fmt": r["fmt"]}, msg, c)
+        etasks = [("fb", SPECS[0], 1), ("fb", SPECS[1], 1), ("fb", SPECS[3], 1),
+                  ("fb", SPECS[5], 1), ("npz", SPECS[1], 1),
+                  ("tfrec", SPECS[0], 1)]
+        if ctx.tier == "thorough":
+            etasks = [(f, sp, 2) for f in ("fb", "npz", "tfrec")
+                      for sp in SPECS[:6]]
+        ee = et = 0
+        smp = None
+        for r in ex.map(effect_case, etasks):
+            if r["harness"]:
+                ctx.harness_error(f"effects {r['spec']}: {r['harness']}")
+                continue
+            ee += r["executions"]
+            et += r["transitions"]
+            smp = smp or r["sample"]
+            ctx.add(states=r["outcomes"], transitions=r["transitions"],
+                    traces_validated_against_impl=r["executions"])
+            for sym, msg, c in r["bad"]:
+                ctx.violation({"engine": "procgates", "symptom": sym,
+                               "fmt": r["fmt"], "granularity": "effects"},
+                              msg, c)
+        ctx.part("file-system-effect granularity: every open / rename / "
+                 "mkdir of a worker inside the dataset is a step; preemption "
+                 f"bound {2 if ctx.tier == 'thorough' else 1}",
+                 writer_lists=len(etasks), executions=ee, transitions=et)
+        if smp:
+            ctx.sample({"effects_schedule": smp})
     ctx.part("writer lists x every interleaving of the writers' steps (real "
              "worker processes)", writer_lists=len(specs), executions=ne,
              note="quick: every interleaving for fb, every third for npz and "
@@ -303,5 +548,18 @@ def run(ctx):
 def replay(case_):
     core.import_sedpack_quietly()
     spec = [[tuple(p) for p in w] for w in case_["spec"]]
+    if case_.get("effects"):
+        from vf.explorer import FixedChooser
+        import multiprocessing
+        multiprocessing.set_start_method("fork", force=True)
+        box = core.fresh_dir("c09r")
+        try:
+            _, _, err, _ = play_effects(case_["fmt"], spec,
+                                        FixedChooser(case_["choices"]),
+                                        box / "par")
+            r = effect_case((case_["fmt"], spec, 0))
+            return ([str(err)] if err else []) + [m for _, m, _ in r["bad"]]
+        finally:
+            shutil.rmtree(box, ignore_errors=True)
     r = case((case_["fmt"], spec, [case_["order"]]))
     return [m for _, m, _ in r["bad"]]
